@@ -41,6 +41,13 @@ func (in *Interp) call(fn *ssa.Function, args []Value) Value {
 			return nf(in, fn, args)
 		}
 	}
+	if fn.Pkg != nil {
+		switch fn.Pkg.Pkg.Path() {
+		case "log/slog", "log":
+			in.stats.Models["log/slog.* (no-op)"]++
+			return in.zeroResults(fn)
+		}
+	}
 	if fn.Blocks == nil {
 		return in.external(fn, args)
 	}
@@ -110,6 +117,13 @@ func (in *Interp) unwindLimit(fn *ssa.Function) int {
 		if !strings.HasPrefix(p, "github.com/bbockelm/cedar") {
 			return 4096 // library loops over concrete data
 		}
+	}
+	root := fn
+	for root.Parent() != nil {
+		root = root.Parent()
+	}
+	if strings.HasPrefix(root.Name(), "vh") || strings.HasPrefix(root.Name(), "VH_") {
+		return 4096 // harness helpers: loops over concrete harness data
 	}
 	return in.cfg.Unwind
 }
